@@ -376,11 +376,16 @@ func genEntryFacts(out string, root *pkgFiles) {
 	// 2. template.layout: `_, err := io.Copy(w, <buffer>); return err` — the error of the one write to the caller's writer is what is returned
 	layoutReturns := false
 	if fd := root.method("template", "layout"); fd != nil {
+		// the one write to the caller's writer: `io.Copy(w, <buffer>)` or, the same thing, `<buffer>.WriteTo(w)`
 		found, returned := writeErrorReturned(fd.Body, func(ce *ast.CallExpr) bool {
-			return exprString(ce.Fun) == "io.Copy" && len(ce.Args) == 2 && exprString(ce.Args[0]) == "w"
+			if exprString(ce.Fun) == "io.Copy" && len(ce.Args) == 2 && exprString(ce.Args[0]) == "w" {
+				return true
+			}
+			sel, ok := ce.Fun.(*ast.SelectorExpr)
+			return ok && sel.Sel.Name == "WriteTo" && len(ce.Args) == 1 && exprString(ce.Args[0]) == "w"
 		})
 		if !found {
-			fail("template.layout", fmt.Errorf("io.Copy(w, …) not found"))
+			fail("template.layout", fmt.Errorf("io.Copy(w, …) / <buffer>.WriteTo(w) not found"))
 		}
 		layoutReturns = returned
 	} else {
@@ -1175,6 +1180,32 @@ func genFmtLists(repo, out string) {
 				atomsOf(cl)
 				return false
 			})
+			if len(names) == 0 {
+				// the list written as the cases of a switch on the atom: `switch a { case atom.X, atom.Y: return true }; return false`
+				ast.Inspect(fd.Body, func(n ast.Node) bool {
+					sw, ok := n.(*ast.SwitchStmt)
+					if !ok || sw.Tag == nil {
+						return true
+					}
+					for _, c := range sw.Body.List {
+						cc, ok := c.(*ast.CaseClause)
+						if !ok || len(cc.List) == 0 || len(cc.Body) != 1 {
+							continue
+						}
+						if rs, ok := cc.Body[0].(*ast.ReturnStmt); !ok || len(rs.Results) != 1 || exprString(rs.Results[0]) != "true" {
+							continue
+						}
+						for _, e := range cc.List {
+							if sel, ok := e.(*ast.SelectorExpr); ok {
+								if id, ok := sel.X.(*ast.Ident); ok && id.Name == "atom" {
+									names = append(names, strings.ToLower(sel.Sel.Name))
+								}
+							}
+						}
+					}
+					return false
+				})
+			}
 			if len(names) == 0 {
 				// the list lives in a package-level table the function looks the atom up in (`return voidElements[a]`, a loop over `inlineAtoms`)
 				ast.Inspect(fd.Body, func(n ast.Node) bool {
